@@ -522,7 +522,7 @@ Proof.
     intros Hf. exfalso. assert (fired w0 = 0) by reflexivity. lia.
   - destruct Hh as [HI1 Hne]. destruct e as [|t| |].
     + (* first interrupt: cancel, drain *)
-      unfold try_catch at 1.
+      unfold on_interrupt. unfold try_catch at 1.
       set (h1 := do_cancel;;; (ok <- drain_loop P c fuel;; ret (if ok then IRaised KI else IOutOfOracle))).
       assert (Hh1 : hoare Tw h1 TT).
       { unfold h1. apply (hoare_bind _ _ _ TT TT); [apply hoare_cancel|]. intros ?u.
